@@ -172,6 +172,10 @@ PrivFailures(S, T, e, out) ==
   IN
     F("JoinNeedsEntitlement",
       \A c \in DOMAIN S.ch : \A x \in gained(c) : x = a /\ joinOK(c))
+    \cup F("CaptchaProofOnlyFromCaptcha",
+      (* the time of the last solved captcha (which opens +x channels for a minute) moves only when the entry *)
+      (* itself carried a valid captcha: the grace period cannot renew itself                                  *)
+      \A x \in Live(S) \cap Live(T) : T.ss[x].lsc # S.ss[x].lsc => (x = a /\ e.capok /\ T.ss[x].lsc = e.ts))
     \cup F("InvitationIsOneShot",
       (* joining a +i / +x channel uses up the invitation that admitted the session *)
       \A c \in DOMAIN S.ch : \A x \in gained(c) :
